@@ -396,7 +396,7 @@ def write(t):
     return "ok", text[4:-1]
 
 
-def reread_many(texts):
+def reread_many(texts, batch=32):
     """Read expressions back with the real FortranReader.  Returns a list of
     ('ok', T) | ('syntax', msg) | ('codeblock', '')."""
     global _R
@@ -430,6 +430,6 @@ def reread_many(texts):
             return solve(batch[:mid]) + solve(batch[mid:])
 
     out = []
-    for i in range(0, len(texts), 32):
-        out += solve(texts[i:i + 32])
+    for i in range(0, len(texts), batch):
+        out += solve(texts[i:i + batch])
     return out
